@@ -824,6 +824,13 @@ pub fn shard_run_grammar(prop: &str, tier: &str, seed: u64, replay_case: Option<
             return out;
         }
     }
+    if replay_case.is_none() && shard.k == (3 % shard.n) {
+        if let Some(f) = binary_sample(prop, seed, if thorough { 2000 } else { 200 }, &grams, &mut cov, &mut out.errors) {
+            out.found.push(f);
+            out.cov = cov;
+            return out;
+        }
+    }
     // C20 also rides on protocol histories (all outcome kinds through the handlers)
     if prop == "C20" && replay_case.is_none() {
         let n_hist = if thorough { 600 } else { 120 };
@@ -1181,9 +1188,7 @@ pub fn finalize_c16(out: ShardOut, is_replay: bool) -> CheckResult {
 
 /// Grammar sample over TCP against an in-process `HttpServer` (in-memory backend).
 fn socket_sample(prop: &str, seed: u64, n: usize, grams: &[Gram], cov: &mut Cov, errors: &mut Vec<String>) -> Option<Found> {
-    use crate::http::{socket_request, Framing};
     use crate::net::SockServer;
-    use std::time::Duration;
     use taskchampion_sync_server::WebServer;
     use taskchampion_sync_server_core::InMemoryStorage;
     // a fixture only to obtain ids / request shapes; the socket server has its own storage with the
@@ -1203,6 +1208,93 @@ fn socket_sample(prop: &str, seed: u64, n: usize, grams: &[Gram], cov: &mut Cov,
             return None;
         }
     };
+    socket_sample_at(prop, seed, n, grams, cov, &fx, &srv.addr, "over a real socket")
+}
+
+/// The real executable (debug logging on, SQLite): a grammar sample, then - for C20 - every endpoint
+/// with the data directory removed under the running server (storage errors).
+fn binary_sample(prop: &str, seed: u64, n: usize, grams: &[Gram], cov: &mut Cov, errors: &mut Vec<String>) -> Option<Found> {
+    use crate::http::{socket_request, Framing};
+    use std::time::Duration;
+    let bin = match crate::net::server_bin() {
+        Some(b) => b,
+        None => {
+            errors.push("the server executable is not built".into());
+            return None;
+        }
+    };
+    let fx = match Fixture::new(Backend::Mem, seed ^ 0xB1, None) {
+        Ok(f) => f,
+        Err(e) => {
+            errors.push(format!("fixture: {e:#}"));
+            return None;
+        }
+    };
+    let dir = crate::scratch::ScratchDir::new("c20bin");
+    let mut started = None;
+    for _ in 0..4 {
+        let port = crate::net::free_port()?;
+        let addr = format!("127.0.0.1:{port}");
+        let args: Vec<String> = vec!["--listen".into(), addr.clone(), "--data-dir".into(), dir.path().to_string_lossy().to_string(), "--snapshot-versions".into(), "4".into()];
+        if let Ok(p) = crate::net::Proc::start(&bin, &args, &[("RUST_LOG".to_string(), "debug".to_string())], &[addr.clone()], Duration::from_secs(20)) {
+            started = Some((p, addr));
+            break;
+        }
+    }
+    let (mut proc, addr) = match started {
+        Some(x) => x,
+        None => {
+            errors.push("cannot start the server executable".into());
+            return None;
+        }
+    };
+    if let Some(f) = socket_sample_at(prop, seed ^ 0xB1, n, grams, cov, &fx, &addr, "the real executable (RUST_LOG=debug)") {
+        return Some(f);
+    }
+    if !proc.alive() {
+        return Some(found(prop, "the real executable (RUST_LOG=debug) exited while answering grammar requests".into(), json!({"origin": "executable", "case": 50_000_000})));
+    }
+    if prop == "C20" {
+        // some state first, then the storage goes away
+        let k = fx.clients[0].to_string();
+        let nil = Uuid::nil();
+        let mk = |id: Uuid| {
+            vec![
+                HttpReq::new("POST", &format!("/v1/client/add-version/{id}")).header("X-Client-Id", &k).header("Content-Type", CT_HISTORY).body(vec![1, 2, 3]),
+                HttpReq::new("GET", &format!("/v1/client/get-child-version/{id}")).header("X-Client-Id", &k),
+                HttpReq::new("POST", &format!("/v1/client/add-snapshot/{id}")).header("X-Client-Id", &k).header("Content-Type", CT_SNAPSHOT).body(vec![4, 5]),
+                HttpReq::new("GET", "/v1/client/snapshot").header("X-Client-Id", &k),
+                HttpReq::new("GET", "/"),
+                HttpReq::new("GET", "/v1/client/nowhere").header("X-Client-Id", &k),
+            ]
+        };
+        for phase in ["healthy", "data-dir-removed", "data-dir-unreadable"] {
+            if phase == "data-dir-removed" {
+                let _ = std::fs::remove_dir_all(dir.path());
+            }
+            if phase == "data-dir-unreadable" {
+                // a plain file where the directory was
+                let _ = std::fs::write(dir.path(), b"not a directory");
+            }
+            for (ri, r) in mk(nil).into_iter().enumerate() {
+                let framing = if ri % 2 == 0 { Framing::ContentLength } else { Framing::Http10 };
+                let resp = socket_request(&addr, &r, framing, Duration::from_secs(20));
+                cov.evaluations += 1;
+                cov.hit(format!("executable|{phase}|{}|status={}", route_class(&r.path), if resp.failure.is_some() { "closed".to_string() } else { resp.status.to_string() }));
+                if resp.failure.is_none() && !no_store(&resp) {
+                    return Some(found("C20", format!("the real executable ({phase}): the response to {} does not forbid caching: {}", r.describe(), resp.describe()), json!({"origin": "executable", "case": 50_000_000})));
+                }
+            }
+        }
+        let _ = std::fs::remove_file(dir.path());
+    }
+    proc.kill9();
+    None
+}
+
+fn socket_sample_at(prop: &str, seed: u64, n: usize, grams: &[Gram], cov: &mut Cov, fx: &Fixture, addr: &str, label: &str) -> Option<Found> {
+    use crate::http::{socket_request, Framing};
+    use std::time::Duration;
     let mut rng = Rng::new(seed).fork(0x50C);
     let to = Duration::from_secs(20);
     let mut extra: Vec<HttpReq> = vec![
@@ -1217,34 +1309,37 @@ fn socket_sample(prop: &str, seed: u64, n: usize, grams: &[Gram], cov: &mut Cov,
     let mut sent = 0usize;
     for i in 0..n {
         let g = grams[rng.usize(grams.len())];
-        let req = if i % 50 == 49 && !extra.is_empty() { extra.remove(0) } else { g.build(&fx, &mut rng) };
+        let req = if i % 50 == 49 && !extra.is_empty() { extra.remove(0) } else { g.build(fx, &mut rng) };
         // replies that actix's HTTP/1 codec emits before routing (unparsable request line, invalid
         // header bytes, oversized head) never reach the application: tallied, not judged
         let head_len: usize = req.path.len() + req.headers.iter().map(|(k, v)| k.len() + v.len() + 4).sum::<usize>();
         let expressible = crate::http::HttpApp::expressible(&req) && !req.headers.iter().any(|(k, _)| k == "Content-Length") && head_len < 8 * 1024;
-        let framing = if i % 2 == 0 { Framing::ContentLength } else { Framing::Chunked };
-        let resp = socket_request(&srv.addr, &req, framing, to);
+        let framing = if i % 5 == 3 { Framing::Http10 } else if i % 2 == 0 { Framing::ContentLength } else { Framing::Chunked };
+        if i % 5 == 3 {
+            cov.count("socket_requests_http_1_0", 1);
+        }
+        let resp = socket_request(addr, &req, framing, to);
         sent += 1;
         cov.evaluations += 1;
-        cov.hit(format!("socket|{}|status={}", if expressible { "well-formed-http" } else { "malformed-http" }, if resp.failure.is_some() { "closed".to_string() } else { resp.status.to_string() }));
+        cov.hit(format!("{}|{}|status={}", if label.contains("executable") { "executable" } else { "socket" }, if expressible { "well-formed-http" } else { "malformed-http" }, if resp.failure.is_some() { "closed".to_string() } else { resp.status.to_string() }));
         if resp.status >= 500 && resp.failure.is_none() {
-            return Some(found(prop, format!("over a real socket, request {} was answered {}", req.describe(), resp.status), json!({"origin": "socket", "case": 40_000_000 + i})));
+            return Some(found(prop, format!("{label}: request {} was answered {}", req.describe(), resp.status), json!({"origin": "socket", "case": 40_000_000 + i})));
         }
         if expressible {
             if resp.failure.is_some() && req.method != "HEAD" {
                 // the application must answer every syntactically valid request
                 if prop == "C15" {
-                    return Some(found("C15", format!("over a real socket, request {} got no response: {:?}", req.describe(), resp.failure), json!({"origin": "socket", "case": 40_000_000 + i})));
+                    return Some(found("C15", format!("{label}: request {} got no response: {:?}", req.describe(), resp.failure), json!({"origin": "socket", "case": 40_000_000 + i})));
                 }
             } else if prop == "C20" && resp.failure.is_none() && !no_store(&resp) {
-                return Some(found("C20", format!("over a real socket, the response to {} does not forbid caching: {}", req.describe(), resp.describe()), json!({"origin": "socket", "case": 40_000_000 + i})));
+                return Some(found("C20", format!("{label}: the response to {} does not forbid caching: {}", req.describe(), resp.describe()), json!({"origin": "socket", "case": 40_000_000 + i})));
             }
         }
     }
     // the server must still be alive and serving
-    let r = socket_request(&srv.addr, &HttpReq::new("GET", "/"), Framing::ContentLength, to);
+    let r = socket_request(addr, &HttpReq::new("GET", "/"), Framing::ContentLength, to);
     if r.status != 200 {
-        return Some(found(prop, format!("after {sent} grammar requests over a socket the server no longer answers GET / ({})", r.describe()), json!({"origin": "socket", "case": 40_000_000})));
+        return Some(found(prop, format!("{label}: after {sent} grammar requests the server no longer answers GET / ({})", r.describe()), json!({"origin": "socket", "case": 40_000_000})));
     }
     cov.count("socket_requests", sent as u64);
     None
